@@ -274,7 +274,7 @@ def cache_harnesses(tier):
     hs = []
     # NaiveLinear's inverse path goes through torch.lu, which is only an opaque contract here (two factorisation handles of the same
     # matrix are not related beyond |prod diag| = |det|): its cached-vs-uncached log-det equality is not decidable with it, so the class is not claimed
-    classes = ["Stub", "LULinear", "OneByOneConvolution", "QRLinear", "SVDLinear"] if tier != "quick" else ["Stub", "LULinear", "OneByOneConvolution"]
+    classes = ["Stub", "LULinear", "OneByOneConvolution", "QRLinear"] if tier != "quick" else ["Stub", "LULinear", "OneByOneConvolution"]
     for cname in classes:
         for op in OPS:
             for training, using in itertools.product([True, False], repeat=2):
